@@ -22,8 +22,8 @@ def run(ctx):
                     "overwriting a Go byte buffer models unmapping/reuse of the file mapping"]
     runs = [
         ("C03_d3", 2, 1, "bfs", None, None),
-        ("C03_sim", 2, 2, "simulate", 40 if not thorough else 600, 7),
-        ("C03_sim3", 3, 1, "simulate", 40 if not thorough else 600, 8),
+        ("C03_sim", 2, 2, "simulate", 40 if not thorough else 300, 7),
+        ("C03_sim3", 3, 1, "simulate", 40 if not thorough else 300, 8),
     ]
     for cfg, K, M, mode, num, depth in runs:
         r = ctx.generate("RoaringDerive", cfg, mode=mode, num=num, depth=depth, timeout=1200)
@@ -32,12 +32,19 @@ def run(ctx):
     # fragment level: rows handed out by a real fragment (file + mmap + row cache), derived
     # from them or stored from them, under later writes, snapshot, reopen and close
     fruns = [
-        ("C03F_d3", 2, "bfs" if thorough else "simulate", 60, 4),
-        ("C03F_sim", 3, "simulate", 40 if not thorough else 800, 9),
+        # (each case opens a real fragment file: BFS of C03F_d3 = 4 x 10^5 behaviours is too slow;
+        # the model-checked property Isolated covers the whole depth-3 space on the model)
+        ("C03F_d3", 2, "simulate", 60 if not thorough else 500, 4),
+        ("C03F_sim", 3, "simulate", 40 if not thorough else 300, 9),
     ]
     for cfg, ncols, mode, num, depth in fruns:
         r = ctx.generate("FragIso", cfg, mode=mode, num=num, depth=depth, timeout=1200)
         ctx.drive("bind/isob", "TestC03Frag", beh=r.behaviours, env={"VERIF_NCOLS": ncols},
                   label="C03/" + cfg, timeout=3000)
+    if thorough:
+        # (M) the frame property Isolated on the whole depth-3 space of the fragment-level model
+        m = ctx.modelcheck("FragIso", "C03F_mc", timeout=900)
+        if m.violation:
+            ctx.inconclusive.append("TLC found a counterexample to Isolated on FragIso itself (spec bug):\n" + m.violation[:1500])
     ctx.exhaustive = False
     ctx.notes.append("exhaustive over all (init, derive, one perturbation) on 2 containers x 1 slot; deeper histories sampled")
